@@ -29,6 +29,7 @@ func init() {
 		Rule{ID: "R20e", Doc: "a struct copied into its new owner is not released through the original", Floor: 1, AllVariants: true, Run: r20e},
 		Rule{ID: "R01g", Doc: "the decoder is given exactly the received bytes, never the rest of a recycled buffer (shared with C01)", Floor: 8, AllVariants: true, Run: r01g},
 		Rule{ID: "R20h", Doc: "pooled buffers are not handed to slice-retaining library calls and then released", Floor: 5, AllVariants: true, Run: r20h},
+		Rule{ID: "R20i", Doc: "a decoded value handed to its record is not released again by the decoder", Floor: 8, AllVariants: true, Run: r20i},
 	)
 }
 
